@@ -48,6 +48,8 @@ def run_variant(args):
     try:
         shutil.copytree(os.path.join(REPO, 'yalafi'), os.path.join(tmp, 'yalafi'),
                         ignore=shutil.ignore_patterns('__pycache__'))
+        if os.path.exists(os.path.join(REPO, 'list-of-macros.md')):
+            shutil.copy(os.path.join(REPO, 'list-of-macros.md'), tmp)
         if not apply_variant(tmp, v):
             return (v['id'], 'skipped', [])
         try:
